@@ -301,3 +301,59 @@ Proof.
   destruct (isort (on (cell col1) val_le) rows) as [|r t]; [constructor|]. simpl.
   apply groupby_keys_sorted. exact (sorted_map_on col1 (r :: t) S).
 Qed.
+
+(* ---- losslessness: every un-pivoted row is found again, at its (first, second) place ---- *)
+Lemma index_of_hit v keys : existsb (fun k => val_eq k v) keys = true ->
+  val_eq (nth (index_of v keys) keys VNull) v = true.
+Proof.
+  induction keys as [|k t IH]; simpl; [discriminate|].
+  destruct (val_eq k v) eqn:E; simpl; [intros _; exact E|]. exact IH.
+Qed.
+
+Lemma in_concat_groups (groups : list (value * list row)) r :
+  In r (concat (map snd groups)) -> exists kg, In kg groups /\ In r (snd kg).
+Proof.
+  induction groups as [|kg t IH]; simpl; [tauto|]. intros H. apply in_app_or in H as [H|H].
+  - exists kg. split; [now left|exact H].
+  - destruct (IH H) as (kg' & H1 & H2). exists kg'. split; [now right|exact H2].
+Qed.
+
+Theorem pivot_lossless ncols col1 col2 rows r :
+  let oc := other_cols ncols col1 col2 in
+  let keys := pivot_keys col2 rows in
+  let groups := groupby col1 None (isort (on (cell col1) val_le) rows) in
+  (* (first, second) identifies the remaining columns: the query is grouped by exactly these two columns *)
+  (forall r1 r2, In r1 rows -> In r2 rows ->
+     val_eq (cell col1 r1) (cell col1 r2) = true -> val_eq (cell col2 r1) (cell col2 r2) = true ->
+     other oc r1 = other oc r2) ->
+  In r rows ->
+  exists kg, In kg groups /\ val_eq (cell col1 r) (fst kg) = true
+             /\ nth (index_of (cell col2 r) keys) (blocks keys oc col2 (snd kg)) [] = other oc r.
+Proof.
+  cbn zeta. intros U Hin.
+  set (oc := other_cols ncols col1 col2). set (keys := pivot_keys col2 rows).
+  destruct (pivot_groups col1 rows) as (Hcat & Hgr & _).
+  set (groups := groupby col1 None (isort (on (cell col1) val_le) rows)) in *.
+  assert (Hs : In r (isort (on (cell col1) val_le) rows))
+    by (eapply Permutation.Permutation_in; [apply isort_perm|exact Hin]).
+  rewrite <- Hcat in Hs. destruct (in_concat_groups groups r Hs) as (kg & Hkg & Hr).
+  exists kg. split; [exact Hkg|]. rewrite Forall_forall in Hgr. destruct (Hgr kg Hkg) as (_ & Hall).
+  rewrite Forall_forall in Hall. split; [now apply Hall|].
+  assert (Hsub : forall x, In x (snd kg) -> In x rows).
+  { intros x Hx. eapply Permutation.Permutation_in; [apply Permutation.Permutation_sym, isort_perm|].
+    rewrite <- Hcat. clear - Hkg Hx. induction groups as [|g t IH]; [destruct Hkg|]. simpl. apply in_or_app.
+    destruct Hkg as [->|H]; [now left|right; now apply IH]. }
+  assert (Hkeys : Forall (in_keys keys col2) (snd kg)).
+  { apply Forall_forall. intros x Hx. apply pivot_keys_complete. now apply Hsub. }
+  assert (Hj : index_of (cell col2 r) keys < length keys) by (apply index_of_lt, pivot_keys_complete, Hin).
+  rewrite (block_content keys oc col2 (snd kg) _ Hkeys Hj).
+  destruct (find (fun r0 => Nat.eqb (index_of (cell col2 r0) keys) (index_of (cell col2 r) keys)) (rev (snd kg))) as [r'|] eqn:F.
+  - apply find_some in F as [Hr' Heq]. apply in_rev in Hr'. apply Nat.eqb_eq in Heq.
+    apply U; [now apply Hsub|exact Hin| |].
+    + eapply val_eq_trans; [apply Hall; exact Hr'|]. rewrite val_eq_sym. now apply Hall.
+    + pose proof (index_of_hit (cell col2 r') keys (pivot_keys_complete col2 rows r' (Hsub r' Hr'))) as H1.
+      pose proof (index_of_hit (cell col2 r) keys (pivot_keys_complete col2 rows r Hin)) as H2.
+      rewrite Heq in H1. rewrite val_eq_sym in H1. eapply val_eq_trans; [exact H1|exact H2].
+  - exfalso. assert (Hrr : In r (rev (snd kg))) by (now apply -> in_rev).
+    pose proof (find_none _ _ F r Hrr) as Hn. simpl in Hn. rewrite Nat.eqb_refl in Hn. discriminate.
+Qed.
